@@ -467,6 +467,24 @@ func ruleDigitKill(c *Ctx) {
 		}
 		sv := p.stickyVars(fd)
 		fp := funcProps(name)
+		// the guard-digit variables of the function: remainders of `X, digit = X.div10()` / `digit = v % 10`
+		gd := map[string]bool{}
+		ast.Inspect(fd.Body, func(nd ast.Node) bool {
+			if as, ok := nd.(*ast.AssignStmt); ok {
+				if len(as.Lhs) == 2 && len(as.Rhs) == 1 {
+					if call, ok := as.Rhs[0].(*ast.CallExpr); ok && strings.HasSuffix(p.calleeName(call), ".div10") && !isBlank(as.Lhs[0]) && !isBlank(as.Lhs[1]) {
+						gd[p.exprKey(as.Lhs[1])] = true
+					}
+				} else if len(as.Lhs) == 1 && len(as.Rhs) == 1 && as.Tok == token.ASSIGN {
+					if be, ok := ast.Unparen(as.Rhs[0]).(*ast.BinaryExpr); ok && be.Op == token.REM {
+						if k, ok := p.constInt64(be.Y); ok && k == 10 {
+							gd[p.exprKey(as.Lhs[0])] = true
+						}
+					}
+				}
+			}
+			return true
+		})
 		walkStack(fd.Body, func(nd ast.Node, stack []ast.Node) {
 			as, ok := nd.(*ast.AssignStmt)
 			if !ok {
@@ -474,6 +492,10 @@ func ruleDigitKill(c *Ctx) {
 			}
 			// the guard digit is the remainder of `X, digit = X.div10()` or `digit = v % 10`
 			var digit ast.Expr
+			if len(as.Lhs) == 1 && len(as.Rhs) == 1 && as.Tok == token.ASSIGN && gd[p.exprKey(as.Lhs[0])] && p.constOf(as.Rhs[0]) == nil {
+				// any other computed value stored in a guard-digit variable (digit = rem / 1000)
+				digit = as.Lhs[0]
+			}
 			if len(as.Lhs) == 2 && len(as.Rhs) == 1 {
 				if call, ok := as.Rhs[0].(*ast.CallExpr); ok && strings.HasSuffix(p.calleeName(call), ".div10") && !isBlank(as.Lhs[0]) && !isBlank(as.Lhs[1]) {
 					digit = as.Lhs[1]
@@ -1269,4 +1291,145 @@ func (p *Prog) remainderKilled(stack []ast.Node, key string) bool {
 		}
 	}
 	return false
+}
+
+// ruleFinalRemainder (E6.finalrem): the remainder R of a general division (`q, R = x.div(y)`) is carried
+// through the digit-producing loop; when that loop stops because the quotient is full, R may still be
+// non-zero. Between the last top-level statement that assigns R and the statement that hands the result on
+// (a call of the rounding kernel, or the return), a top-level `if R != 0 { sticky = c }` must stand, so
+// that the test is passed on every path (also the one that skips the loop).
+func ruleFinalRemainder(c *Ctx) {
+	p := c.P
+	n := 0
+	for _, name := range p.sortedFuncNames() {
+		fd := p.Funcs[name]
+		if fd.Body == nil {
+			continue
+		}
+		if fd.Recv != nil && strings.HasPrefix(recvTypeName(fd.Recv.List[0].Type), "uint") {
+			continue
+		}
+		rems := map[string]string{}
+		ast.Inspect(fd.Body, func(nd ast.Node) bool {
+			if as, ok := nd.(*ast.AssignStmt); ok && len(as.Lhs) == 2 && len(as.Rhs) == 1 {
+				if call, ok := as.Rhs[0].(*ast.CallExpr); ok && len(call.Args) == 1 {
+					cn := p.calleeName(call)
+					if (cn == "uint128.div" || cn == "uint192.div") && !isBlank(as.Lhs[1]) && limbsOf(p.typeOf(as.Lhs[1])) > 1 {
+						rems[p.exprKey(as.Lhs[1])] = p.exprStr(as.Lhs[1])
+					}
+				}
+			}
+			return true
+		})
+		if len(rems) == 0 {
+			continue
+		}
+		sv := p.stickyVars(fd)
+		list := fd.Body.List
+		for rk, rname := range rems {
+			last := -1
+			for i, s := range list {
+				if p.assignsTo(s, rk) {
+					last = i
+				}
+			}
+			if last < 0 {
+				continue
+			}
+			// a remainder that is itself a result (QuoRem hands it to the rounding kernel / compose) is not a sticky source
+			isResult := false
+			ast.Inspect(fd.Body, func(m ast.Node) bool {
+				if call, ok := m.(*ast.CallExpr); ok {
+					if cn := p.calleeName(call); strings.HasPrefix(cn, "RoundingMode.") || cn == "compose" {
+						for _, a := range call.Args {
+							if p.exprKey(a) == rk {
+								isResult = true
+							}
+						}
+					}
+				}
+				return true
+			})
+			if isResult {
+				continue
+			}
+			end := len(list)
+			for i := last + 1; i < len(list); i++ {
+				isEnd := false
+				if _, ok := list[i].(*ast.ReturnStmt); ok {
+					isEnd = true
+				}
+				ast.Inspect(list[i], func(m ast.Node) bool {
+					if call, ok := m.(*ast.CallExpr); ok && strings.HasPrefix(p.calleeName(call), "RoundingMode.") {
+						isEnd = true
+					}
+					return true
+				})
+				if isEnd {
+					end = i
+					break
+				}
+			}
+			tested := false
+			for i := last + 1; i < end; i++ {
+				ifs, ok := list[i].(*ast.IfStmt)
+				if !ok || ifs.Else != nil || ifs.Init != nil {
+					continue
+				}
+				x, op, kv, ok := p.normCmp(ifs.Cond)
+				if !ok || kv.Sign() != 0 || op != token.NEQ {
+					continue
+				}
+				// the or-chain must contain every limb of R
+				limbs := map[string]bool{}
+				var parts func(e ast.Expr)
+				parts = func(e ast.Expr) {
+					e = ast.Unparen(e)
+					if be, ok := e.(*ast.BinaryExpr); ok && be.Op == token.OR {
+						parts(be.X)
+						parts(be.Y)
+						return
+					}
+					limbs[p.ikey(e)] = true
+				}
+				parts(x)
+				all := true
+				for l := 0; l < limbsOf(p.typeOf(identOfKey(p, fd, rk))); l++ {
+					if !limbs[rk+"["+itoa(l)+"]"] {
+						all = false
+					}
+				}
+				if !all {
+					continue
+				}
+				for _, t := range ifs.Body.List {
+					if a2, ok := t.(*ast.AssignStmt); ok && len(a2.Lhs) == 1 && len(a2.Rhs) == 1 {
+						if _, isSticky := sv[p.exprKey(a2.Lhs[0])]; isSticky {
+							if v, ok := p.constInt64(a2.Rhs[0]); ok && v != 0 {
+								tested = true
+							}
+						}
+					}
+				}
+			}
+			n++
+			c.check(tested, "finalrem:"+name+":"+rname, list[last], "the final remainder is folded into the sticky flag on every path to the rounding step",
+				fmt.Sprintf("%s: after the last assignment of the division remainder %s there is no unconditional `if %s != 0 { sticky = … }` in front of the rounding step; when the digit loop is skipped or stops on a full quotient, a non-zero remainder is forgotten", name, rname, rname), funcProps(name)...)
+		}
+	}
+	if n < 3 {
+		c.undecided("finalrem.count", nil, fmt.Sprintf("only %d general-division remainders found", n))
+	}
+}
+
+// identOfKey finds some expression of the function with the given key (for its type).
+func identOfKey(p *Prog, fd *ast.FuncDecl, key string) ast.Expr {
+	var out ast.Expr
+	ast.Inspect(fd.Body, func(m ast.Node) bool {
+		if e, ok := m.(ast.Expr); ok && out == nil && p.exprKey(e) == key {
+			out = e
+		}
+		return out == nil
+	})
+	return out
 }
